@@ -9,12 +9,15 @@ type yieldAst struct {
 	funRetParamTy   ast.Expr // generator element type
 
 	callNormal *ast.CallExpr // for fast equivalence check
+
+	thunks map[*ast.FuncLit]bool // generated callbacks, to tell them from closures written by user
 }
 
 func mkYieldAst(seqName string, retParamTy ast.Expr) *yieldAst {
 	a := &yieldAst{
 		seqImportedName: seqName,
 		funRetParamTy:   retParamTy,
+		thunks:          map[*ast.FuncLit]bool{},
 	}
 	a.callNormal = a.CallNormal()
 	return a
@@ -47,7 +50,7 @@ func (y *yieldAst) SeqCall(name string, args ...ast.Expr) *ast.CallExpr {
 }
 
 func (y *yieldAst) Thunk(body *ast.BlockStmt) *ast.FuncLit {
-	return &ast.FuncLit{
+	thunk := &ast.FuncLit{
 		Type: &ast.FuncType{
 			Params: X.Fields(),
 			Results: X.Fields(
@@ -56,6 +59,8 @@ func (y *yieldAst) Thunk(body *ast.BlockStmt) *ast.FuncLit {
 		},
 		Body: body,
 	}
+	y.thunks[thunk] = true
+	return thunk
 }
 
 func (y *yieldAst) CallStart(body *ast.BlockStmt) *ast.CallExpr {
